@@ -95,6 +95,16 @@ func c16(c *Ctx) (*report.Result, error) {
 	checkInterceptorOrder(c, res, "O16.3")
 	checkNoBypassHeader(c, res, "O16.4")
 	checkListNamespaces(c, res, "O16.5")
+	res.RuleDoc["O16.11"] = "what was checked is what is forwarded: a blob that the walk had to repair before it could look into it replaces the original in the request (the write-back obligations of O17.4, imported) - the repaired blob is a lossy re-encoding through the 1.22 schema, which drops fields it does not know (event links with their namespace); if the original is forwarded instead, a namespace the check never saw reaches the local cluster"
+	if r17, err := Registry["C17"](c); err == nil && r17 != nil {
+		if n := importObligations(res, r17, "O16.11", func(o report.Obligation) bool {
+			return o.Rule == "O17.4" && strings.Contains(o.Construct, "replaces the original")
+		}); n < 2 {
+			res.Undec("O16.11", "write-back obligations of O17.4", "", fmt.Sprintf("%d imported, 2 expected", n))
+		}
+	} else {
+		res.Undec("O16.11", "write-back obligations of O17.4", "", "C17 rule set failed")
+	}
 	res.RuleDoc["O16.10"] = "the namespace allow-list reaches the access check as it was configured (same analysis as O15.9): no append onto a truncated view of a list the function was handed in config, auth, interceptor or proxy"
 	checkNoAppendOntoBorrowedPrefix(c, res, "O16.10", []string{"config", "auth", "interceptor", "proxy"}, 5)
 	res.RuleDoc["O16.9"] = "the allow-list the access check matches against is the policy's: makeServerOptions hands NewAccessControlInterceptor aclPolicy.AllowedNamespaces itself, or the result of a helper that returns nothing but elements of it - a list extended with other names (translated aliases, defaults) admits requests for namespaces the policy does not list, e.g. a bypass-header request that names the alias (same analysis as O15.2)"
